@@ -6,7 +6,7 @@ same set; WHO/PROV: no identifier is rebuilt from the fields of another one.
 """
 from ..core import callee_of, callee_names, is_call_to, unwrap, fold
 from ..ranges import canon
-from ..families import fields_touched, describe, bodies_of_fn
+from ..families import fields_touched, describe, bodies_of_fn, check_self_compare
 from ..etf import DEC, ENC, OWNED, BORROWED, writer_paths
 
 TYPES = {'Pid': 'erltf::types::ExternalPid', 'Port': 'erltf::types::ExternalPort', 'Reference': 'erltf::types::ExternalReference'}
@@ -91,6 +91,50 @@ def run(ctx):
             ctx.bad('C10.2-replay', var, 'replay path is not exactly `121, raw bytes` (events %s, selected by the Option=%s)' % ([e[:3] for e in raw], guarded), ctx.where(EB),
                     key='WIRE:%s%s:replay-shape' % (ENC, fn))
 
+    # every identifier the encoder writes goes through the replaying encoder of its type
+    ctx.rule('C10.2-single-writer', 'an encoder function that writes a pid/port/reference in plain form without looking at the raw node-local bytes is called only from the replaying encoder of that type '
+             '(so no identifier, wherever it is nested - e.g. the creator pid of a fun - bypasses the replay); every other encoder hands identifiers to the replaying encoder', floor=3)
+    ID_TAGS = {'Pid': {88, 103}, 'Port': {89, 102, 120}, 'Reference': {90, 114, 101}}
+    REPLAYING = {'Pid': ENC + 'encode_pid_impl', 'Port': ENC + 'encode_port_impl', 'Reference': ENC + 'encode_reference_impl'}
+    for var, ty in TYPES.items():
+        short = ty.rsplit('::', 1)[1]
+        takers = [q for q in ctx.F.bodies if q.startswith(ENC) and ctx.F.bodies[q]['kind'] == 'Fn'
+                  and any(short in P.B(q).local_ty(i) for i in range(1, P.B(q).b['argc'] + 1))]
+        ctx.anchor(REPLAYING[var] in takers, REPLAYING[var] + ' takes a ' + short)
+        for q in sorted(takers):
+            paths = writer_paths(P, q)
+            tags = {p_['tag'] for p_ in paths}
+            inst = '%s:%s' % (var, q.rsplit('::', 1)[1])
+            if 121 in tags:
+                ctx.ok('C10.2-single-writer', inst, 'replaying encoder (has the LOCAL_EXT path)')
+                continue
+            if not (tags & ID_TAGS[var]):
+                ctx.ok('C10.2-single-writer', inst, 'writes no identifier tag itself')
+                continue
+            callers = sorted({c for c, bb, t in P.callers_of(lambda n, q=q: n == q)})
+            foreign = [c for c in callers if c.split('::{')[0] != REPLAYING[var]]
+            if foreign:
+                ctx.bad('C10.2-single-writer', inst, '%s writes a %s in plain form (tags %s) without consulting the raw node-local bytes and is called from %s: a %s received in node-local form is re-emitted '
+                        'from its parsed fields there (hash lost)' % (q.rsplit('::', 1)[1], var.lower(), sorted(tags & ID_TAGS[var]), [c.rsplit('::', 1)[1] for c in foreign], var.lower()),
+                        ctx.where(P.B(q)), key='WHO:%s:plain-%s-writer-called-from:%s' % (q, var.lower(), ','.join(c.rsplit('::', 1)[1] for c in foreign)))
+            else:
+                ctx.ok('C10.2-single-writer', inst, 'plain writer, called only from %s' % REPLAYING[var].rsplit('::', 1)[1])
+
+    inline = 0
+    all_id_tags = set().union(*ID_TAGS.values())
+    for q in sorted(x for x in ctx.F.bodies if x.startswith(ENC + 'encode_') and ctx.F.bodies[x]['kind'] == 'Fn'):
+        if q in REPLAYING.values():
+            continue
+        QB = P.B(q)
+        if any(any(TYPES[v].rsplit('::', 1)[1] in QB.local_ty(i) for v in TYPES) for i in range(1, QB.b['argc'] + 1)):
+            continue       # takers are handled above
+        inline += 1
+        hits = sorted({e[2] for p_ in writer_paths(P, q) for e in p_['raw'] if e[0] == 'w' and e[1] == 'u8' and isinstance(e[2], int) and e[2] in all_id_tags})
+        if hits:
+            ctx.bad('C10.2-single-writer', 'inline:' + q.rsplit('::', 1)[1], '%s writes the identifier tag(s) %s itself instead of calling the replaying encoder' % (q.rsplit('::', 1)[1], hits), ctx.where(QB),
+                    key='WHO:%s:inline-identifier-tag' % q)
+    ctx.info_note('%d other encoder functions scanned for identifier tags written inline: none' % inline)
+
     # ---------------- clause 3: logical-field equality / hash / order ---------------------------------------
     ctx.rule('C10.3-logical-fields', 'PartialEq::eq, Hash::hash and Ord::cmp of each identifier type read the same field set: all fields except the raw bytes', floor=9)
     for var, ty in TYPES.items():
@@ -129,6 +173,37 @@ def run(ctx):
                 ctx.ok('C10.3-logical-fields', var + '::clone', 'manual Clone copies every field')
             else:
                 ctx.bad('C10.3-logical-fields', var + '::clone', 'Clone does not copy %s' % sorted(all_fields - fs), key='FIELDSET:%s::clone' % ty)
+
+    # term-level comparators may compare identifiers inline instead of delegating: same field set, no self-comparison
+    ctx.rule('C10.3-term-level', 'where OwnedTerm / BorrowedTerm compare, equate or hash an identifier inline (not through the identifier type\'s own impl) they read exactly its logical fields, '
+             'and no comparison in these bodies has the same operand on both sides', floor=6)
+    for termty in (OWNED, BORROWED + "<'a>"):
+        for tr, m in (('core::cmp::PartialEq', 'eq'), ('core::hash::Hash', 'hash'), ('core::cmp::Ord', 'cmp')):
+            path = '<%s as %s>::%s' % (termty, tr, m)
+            bodies = bodies_of_fn(P, path)
+            if not bodies:
+                continue      # derived / absent: delegates to the identifier type's impl
+            ncmp = 0
+            for FB in bodies:
+                ncmp += check_self_compare(ctx, FB, 'C10.3-term-level')
+            for var, ty in TYPES.items():
+                adt = ctx.F.adts.get(ty)
+                if adt is None:
+                    continue
+                want = {f['n'] for f in adt['variants'][0]['fields']} - {RAW}
+                fs = set()
+                for FB in bodies:
+                    fs |= fields_touched(FB, ty)
+                inst = '%s::%s:%s' % (termty.rsplit('::', 1)[1].split('<')[0], m, var)
+                if not fs:
+                    ctx.ok('C10.3-term-level', inst, 'no inline field access: delegates to %s' % ty.rsplit('::', 1)[1])
+                elif fs == want:
+                    ctx.ok('C10.3-term-level', inst, 'inline, reads %s (%d comparisons scanned for self-comparison)' % (sorted(fs), ncmp))
+                elif RAW in fs:
+                    ctx.bad('C10.3-term-level', inst, '%s of the term type depends on the raw node-local bytes of a %s' % (m, var.lower()), key='FIELDSET:%s:%s:uses-raw-bytes' % (path, var))
+                else:
+                    ctx.bad('C10.3-term-level', inst, '%s of the term type reads %s of a %s, the logical fields are %s: identifiers differing only in %s are treated as the same (e.g. merged as map keys)'
+                            % (m, sorted(fs), var.lower(), sorted(want), sorted(want - fs)), key='FIELDSET:%s:%s:fields' % (path, var))
 
     # ---------------- clause 4: no identifier is rebuilt from another's fields -------------------------------------
     ctx.rule('C10.4-no-rebuild', 'no function of the library builds a pid/port/reference from the fields of an existing one (which would drop the raw bytes); conversions move or clone the whole value', floor=6)
